@@ -1134,6 +1134,8 @@ impl Blockchain {
             old_chain.len()
         );
 
+        #[cfg(saito_verif)]
+        crate::core::consensus::verif_hook::begin();
         let previous_block_hash;
         let mut wallet_update_status = WALLET_NOT_UPDATED;
         let has_gt;
@@ -1160,6 +1162,10 @@ impl Blockchain {
             let mut result: WindingResult =
                 WindingResult::Wind(new_chain.len() - 1, false, WALLET_NOT_UPDATED);
             loop {
+                #[cfg(saito_verif)]
+                if crate::core::consensus::verif_hook::over_budget(new_chain.len()) {
+                    return (false, wallet_update_status);
+                }
                 match result {
                     WindingResult::Wind(current_wind_index, wind_failure, wallet_status) => {
                         wallet_update_status |= wallet_status;
@@ -1202,6 +1208,12 @@ impl Blockchain {
         } else if !new_chain.is_empty() {
             let mut result = WindingResult::Unwind(0, true, old_chain.to_vec(), WALLET_NOT_UPDATED);
             loop {
+                #[cfg(saito_verif)]
+                if crate::core::consensus::verif_hook::over_budget(
+                    new_chain.len() + old_chain.len(),
+                ) {
+                    return (false, wallet_update_status);
+                }
                 match result {
                     WindingResult::Wind(current_wind_index, wind_failure, wallet_status) => {
                         wallet_update_status |= wallet_status;
@@ -1341,6 +1353,10 @@ impl Blockchain {
             }
         }
 
+        #[cfg(saito_verif)]
+        crate::core::consensus::verif_hook::record(
+            crate::core::consensus::verif_hook::Step::Wind(*block_hash, does_block_validate),
+        );
         let mut wallet_updated = WALLET_NOT_UPDATED;
 
         if does_block_validate {
@@ -1577,6 +1593,10 @@ impl Blockchain {
                 "unwinding hash: {:?} w/id {:?}",
                 block_hash.to_hex(),
                 block_id
+            );
+            #[cfg(saito_verif)]
+            crate::core::consensus::verif_hook::record(
+                crate::core::consensus::verif_hook::Step::Unwind(block_hash),
             );
             // utxoset update
             block.on_chain_reorganization(&mut self.utxoset, false);
